@@ -60,7 +60,9 @@ where
                               // we loop here again
                         }
                         _ => {
-                            break;
+                            if self.detected_storage_header {
+                                break;
+                            } // else not enough data for a storage header msg but a (shorter) serial header msg might still fit
                         }
                     },
                 }
